@@ -59,7 +59,7 @@ func bulkDoc(schema models.IndexSchema, v int) model.Doc {
 
 func genBulk(t *rapid.T) BulkCase {
 	schema := gen.Schema(t, gen.SchemaOpts{Filters: true, MinProps: 2})
-	c := BulkCase{Schema: schema, N: rapid.SampledFrom([]int{1000, 1024, 1025, 1030, 1500, 2050, 3000}).Draw(t, "n"), CacheSize: rapid.SampledFrom([]int64{-1, 0, 2000}).Draw(t, "cacheLimit")}
+	c := BulkCase{Schema: schema, N: rapid.SampledFrom([]int{1000, 1024, 1025, 1030, 1500, 2050, 3000, 4097, 4100, 8193, 8200, 10000}).Draw(t, "n"), CacheSize: rapid.SampledFrom([]int64{-1, 0, 2000}).Draw(t, "cacheLimit")}
 	c.Distinct = rapid.SampledFrom([]int{c.N, c.N, c.N / 2, 1025, 40}).Draw(t, "distinct")
 	if c.Distinct > c.N {
 		c.Distinct = c.N
@@ -157,6 +157,41 @@ func execBulk(c BulkCase) (res vt.Result) {
 					probes = append(probes, models.Query{Property: p, StringArray: &models.SearchStringArrayOptions{Value: []string{fmt.Sprintf("t%d", v)}, Operator: models.OperatorContainsAll}})
 				}
 			}
+		}
+		// scans over exactly K distinct values (K around multiples of 4096: sets collected by a scan may be
+		// merged in blocks), from below, from above, and everything but one value
+		for _, k := range []int{4095, 4096, 4097, 8191, 8192, 8193} {
+			if k > c.Distinct {
+				continue
+			}
+			for _, p := range gen.SortedProps(c.Schema) {
+				switch c.Schema[p].Type {
+				case models.IndexTypeInteger:
+					probes = append(probes, models.Query{Property: p, Integer: &models.SearchIntegerOptions{Value: int64(k - 700), Operator: models.OperatorLessThan}},
+						models.Query{Property: p, Integer: &models.SearchIntegerOptions{Value: int64(c.Distinct - k - 700), Operator: models.OperatorGreaterOrEq}},
+						models.Query{Property: p, Integer: &models.SearchIntegerOptions{Value: int64(10 - 700), EndValue: int64(10 + k - 1 - 700), Operator: models.OperatorInRange}})
+				case models.IndexTypeFloat:
+					probes = append(probes, models.Query{Property: p, Float: &models.SearchFloatOptions{Value: float64(k)/4 - 100, Operator: models.OperatorLessThan}},
+						models.Query{Property: p, Float: &models.SearchFloatOptions{Value: float64(c.Distinct-k)/4 - 100, Operator: models.OperatorGreaterOrEq}})
+				case models.IndexTypeString:
+					probes = append(probes, models.Query{Property: p, String: &models.SearchStringOptions{Value: fmt.Sprintf("V%04d", k), Operator: models.OperatorLessThan}},
+						models.Query{Property: p, String: &models.SearchStringOptions{Value: fmt.Sprintf("V%04d", c.Distinct-k), Operator: models.OperatorGreaterOrEq}})
+				}
+			}
+			if k+1 == c.Distinct {
+				for _, p := range gen.SortedProps(c.Schema) {
+					switch c.Schema[p].Type {
+					case models.IndexTypeInteger:
+						probes = append(probes, models.Query{Property: p, Integer: &models.SearchIntegerOptions{Value: int64(3 - 700), Operator: models.OperatorNotEquals}})
+					case models.IndexTypeString:
+						probes = append(probes, models.Query{Property: p, String: &models.SearchStringOptions{Value: "V0003", Operator: models.OperatorNotEquals}},
+							models.Query{Property: p, String: &models.SearchStringOptions{Value: "V", Operator: models.OperatorStartsWith}})
+					}
+				}
+			}
+		}
+		if c.Distinct >= 4097 {
+			rec.Count("bulk_cases_with_scans_over_thousands_of_values", 1)
 		}
 		qs := append(append([]models.Query{}, c.Queries[phase]...), probes...)
 		where := fmt.Sprintf("after the bulk %s (%d points), running instance", st.Kind, len(st.Points)+len(st.Ids))
